@@ -27,6 +27,15 @@ CLAIMED = {
              "laws are checked on the real outputs and the value is compared with the model's exact rational.",
         note="Bounded scope (cfg constants). Trusted: TLC, NumPy FFT to 1e-8 for the correlation. For thresholded centre of gravity "
              "only the relations decide (value differences with all relations intact are impl_drift)."),
+    "C16": dict(
+        engine="tlc+replay", design_ref="DESIGN.md §3 C16",
+        technique="TLA+ spec ImageRed.tla: token-set semantics of the two binning passes, ring sets of the azimuthal average, node-circle membership of encircled energy for recorded radii, zoom grid coincidences; model-checked by TLC and replayed into binImgs/azimuthal_average/encircled_energy/zoom/zoom_rbs",
+        text="TLC computes for every shape/bin factor, every size and every recorded encircled-energy case the exact set of input "
+             "pixels behind each output value and checks block-sum, flux, ring and monotonicity invariants; the real functions are "
+             "run on token-valued (powers of two) and integer images and must reproduce those sets exactly (interpolated EE curve "
+             "and diameter to 1e-12).",
+        note="Bounded scope. Spline values between nodes are FITPACK numerics (trusted): only identity, node pass-through, polynomial "
+             "exactness and complex split are asserted for zoom/zoom_rbs."),
 }
 
 NOT_APPLICABLE = {
